@@ -2,8 +2,11 @@
 Data file operations and readers/writers for the Python Iceberg implementation
 """
 
+import math
+import numbers
 import os
 import tempfile
+from datetime import date, datetime, time
 from typing import TYPE_CHECKING, Any, Dict, Iterator, List, Optional, Tuple, Union
 
 import pyarrow as pa
@@ -38,6 +41,14 @@ _SCHEMA_MISMATCH_ERRORS = (
     ValueError,
     KeyError,
 )
+
+
+# Value ranges of the integer column types.
+_INT_BOUNDS = {"int": (-(2**31), 2**31 - 1), "long": (-(2**63), 2**63 - 1)}
+
+# Smallest magnitude that IEEE binary32 round-to-nearest turns into infinity
+# (halfway between the largest finite float32 and 2**128).
+_FLOAT32_OVERFLOW = 2**128 - 2**103
 
 
 class DataFileReader:
@@ -511,7 +522,11 @@ class DataFileManager:
           pyarrow's schema projection.
         - Required (non-nullable) fields must be present and non-None; pyarrow's
           from_pylist does not enforce nullability, so we must.
-        Type mismatches are left to pyarrow, which raises on incompatible values.
+        - Values the declared column type cannot hold are refused (see
+          _value_fits): pyarrow's from_pylist raises on SOME mismatches but
+          silently coerces others (1.5 -> 1 in an int column, an int taken as
+          microseconds in a timestamp column, bytes decoded into a string
+          column, ...), and a silently altered value is data corruption.
         """
         # Schema.__post_init__ guarantees every field has a "name".
         allowed = {str(f["name"]) for f in iceberg_schema.fields}
@@ -531,6 +546,70 @@ class DataFileManager:
                     raise ValueError(
                         f"Record {i} is missing required field '{name}' (or it is None)"
                     )
+            for f in iceberg_schema.fields:
+                value = record.get(f["name"])
+                if not self._value_fits(f.get("type"), value):
+                    raise ValueError(
+                        f"Record {i}: value {value!r} ({type(value).__name__}) of field "
+                        f"'{f['name']}' cannot be stored in a column of type "
+                        f"'{f.get('type')}' without being altered. Refusing to silently "
+                        f"change data."
+                    )
+
+    @staticmethod
+    def _value_fits(field_type: Any, value: Any) -> bool:
+        """True when `value` may be handed to pyarrow for a column of `field_type`.
+
+        pyarrow's Python -> Arrow conversion silently alters many values it
+        could have refused: floats are truncated into integer columns, numbers
+        are taken as days / microseconds by date, time and timestamp columns
+        (and wrap around), a datetime loses its time of day in a date column
+        and its UTC offset in a timestamp column, bytes and str are converted
+        into each other, True becomes 1.0, and a double beyond the float32
+        range becomes infinity. Everything of that kind is refused here; what
+        passes is either stored unchanged (floats are rounded to float32 in a
+        float column) or makes pyarrow raise (e.g. an int that a float column
+        cannot hold exactly).
+
+        None always passes (nullability is checked by the caller), and so do
+        values of complex (non-string) type definitions, which are left to pyarrow.
+        """
+        if value is None or not isinstance(field_type, str):
+            return True
+        if field_type == "boolean":
+            return isinstance(value, bool)
+        if field_type in _INT_BOUNDS:
+            lo, hi = _INT_BOUNDS[field_type]
+            if isinstance(value, bool):
+                return False
+            if isinstance(value, numbers.Integral):
+                return lo <= value <= hi
+            if isinstance(value, float):
+                return value.is_integer() and lo <= value <= hi
+            return False
+        if field_type in ("float", "double"):
+            if isinstance(value, bool):
+                return False
+            if isinstance(value, numbers.Integral):
+                return True  # pyarrow raises unless the column type holds it exactly
+            if isinstance(value, float):
+                return (
+                    field_type == "double"
+                    or not math.isfinite(value)
+                    or abs(value) < _FLOAT32_OVERFLOW
+                )
+            return False
+        if field_type in ("string", "uuid"):
+            return isinstance(value, str)
+        if field_type in ("binary", "fixed"):
+            return isinstance(value, (bytes, bytearray))
+        if field_type == "timestamp":
+            return isinstance(value, datetime) and value.tzinfo is None
+        if field_type == "date":
+            return isinstance(value, date) and not isinstance(value, datetime)
+        if field_type == "time":
+            return isinstance(value, time) and value.tzinfo is None
+        return True
 
     def write_data_file(
         self,
